@@ -59,12 +59,22 @@ def draw_measure(data, tier):
     from hypothesis import strategies as st
     fam = data.draw(st.sampled_from(FAMS + [i for i in FAMS if PG.species(G.FAMILIES[i][0])]))      # fermions twice as often
     ops, sp, named = G.family(fam)
-    lats = [l for l in LATS_Q + [[2, 2, 'obc'], [2, 3, 'obc'], [3, 2, 'obc']] + ([[3, 3, 'obc']] if tier == 'thorough' else []) if sp.d ** (l[0] * l[1]) <= 1024]
+    lats = [l for l in LATS_Q + [[2, 2, 'obc'], [2, 3, 'obc'], [3, 2, 'obc'], [3, 3, 'obc']] if sp.d ** (l[0] * l[1]) <= 1024]     # (3x3 for d = 2 only)
     lat = data.draw(st.sampled_from(lats))
     N = lat[0] * lat[1]
     purification = P.chance(data, 1, 5) and sp.d ** (2 * N) <= 5000
     occ = [data.draw(st.integers(0, sp.d - 1)) for _ in range(N)]
-    gates = PG.draw_circuit(data, fam, lat, tier, max_gates=4, kinds=('nn', 'nn', 'nn', 'local'))
+    if P.chance(data, 1, 2):
+        gates = PG.draw_circuit(data, fam, lat, tier, max_gates=4, kinds=('nn', 'nn', 'nn', 'local'))
+    else:
+        # a layer: at most one gate per bond (bond dimensions stay small) on most bonds - states entangled across the whole lattice
+        gates = []
+        idx_ = PG.index_of(lat)
+        for a, b in PG.neighbours(lat):
+            if idx_[a] < idx_[b] and not P.chance(data, 1, 4):
+                g = PG.draw_gate_spec(data, fam, tier, local=False)
+                g['sites'] = [list(a), list(b)] if data.draw(st.booleans()) else [list(b), list(a)]
+                gates.append(g)
     chain = min(lat[0], lat[1]) == 1
     env = data.draw(st.sampled_from(['mps', 'ctm', 'mps', 'ctm'] + (['bp'] if chain else [])))
     one, pairs = op_catalogue(fam)
@@ -81,6 +91,16 @@ def draw_measure(data, tier):
                 m['bond'] = data.draw(st.sampled_from([None] + [[list(a), list(b)] for a, b in PG.neighbours(lat)]))
             else:
                 m.update({'pairs': data.draw(st.sampled_from(['corner <=', 'corner <', '<', '<=', 'row <'])), 'dirn': data.draw(st.sampled_from(['v', 'h']))})
+                if P.chance(data, 1, 2):      # a window that need not reach the lattice edges
+                    x0 = data.draw(st.integers(0, lat[0] - 1))
+                    y0 = data.draw(st.integers(0, lat[1] - 1))
+                    m['xrange'] = [x0, data.draw(st.integers(x0 + 1, lat[0]))]
+                    m['yrange'] = [y0, data.draw(st.integers(y0 + 1, lat[1]))]
+                    if lat[0] > 1 and lat[1] > 1 and P.chance(data, 1, 2):
+                        # several rows, stopping one column short of the right (or one row short of the bottom) edge: the operator string
+                        # has to leave and re-enter the window through a non-trivial virtual leg
+                        m['xrange'], m['yrange'] = ([0, lat[0]], [0, lat[1] - 1]) if m['dirn'] == 'h' else ([0, lat[0] - 1], [0, lat[1]])
+                        m['pairs'] = data.draw(st.sampled_from(['<', '<=', 'corner <']))
         else:
             k = data.draw(st.sampled_from([2, 3, 2, 4]))
             pr = list(data.draw(st.sampled_from(pairs)))
@@ -98,12 +118,19 @@ def expect(v, O):
     return np.vdot(v, O @ v) / np.vdot(v, v)
 
 
+def max_bond(psi):
+    bd = psi.get_bond_dimensions()
+    return max([max(v) if hasattr(v, '__iter__') else v for v in bd.values()] + [1])
+
+
 def build_env(kind, psi, lat, desc):
     if kind == 'mps':
         env = fpeps.EnvBoundaryMPS(psi, opts_svd={'D_total': 256, 'tol': 1e-15}, setup=desc['setup'])
         disc = max([float(i.get('discarded', 0)) for i in env.info.values()] + [0.0])
         return env, disc
     if kind == 'ctm':
+        if max_bond(psi) ** (2 * max(lat[0], lat[1])) > 4096:
+            raise Reject('bond_dimension_too_large_for_exact_ctm')      # the exactly expanded corners have dimension D^(2 k)
         env = fpeps.EnvCTM(psi, init=desc['init'])
         for _ in range(max(lat[0], lat[1]) + 1):
             env.expand_outward_()
@@ -120,6 +147,8 @@ def execute_measure(desc):
     psi, v, labels, nt0 = c11.run_circuit(desc, check=False)
     if np.linalg.norm(v) < 1e-8:
         raise Reject('state_annihilated')
+    if max_bond(psi) > 32:
+        raise Reject('bond_dimension_too_large')     # apply_gate_ does not truncate: repeated gates on one bond multiply its dimension
     idx = PG.index_of(lat)
     N = len(idx)
     kind = desc['env']
@@ -127,6 +156,8 @@ def execute_measure(desc):
     entangled = any(len(g['sites']) > 1 for g in desc['gates'])
     try:
         env, disc = build_env(kind, psi, lat, desc)
+    except MemoryError:
+        raise Reject('environment_too_large')
     except YastnError as e:
         raise Violation(f'measure:{kind}:setup_raises', str(e))
     if disc > 1e-12:
@@ -184,7 +215,13 @@ def execute_measure(desc):
                 if kind == 'mps' and not set('lrtb') <= set(desc['setup']):
                     continue
                 a, b = m['ops']
-                out = env.measure_2site(op(a), op(b), pairs=m['pairs'], dirn=m['dirn'], opts_svd={'D_total': 256, 'tol': 1e-15})
+                win = {'xrange': tuple(m['xrange']), 'yrange': tuple(m['yrange'])} if 'xrange' in m else {}
+                out = env.measure_2site(op(a), op(b), pairs=m['pairs'], dirn=m['dirn'], opts_svd={'D_total': 256, 'tol': 1e-15}, **win)
+                if win:
+                    labels.append('2site:window')
+                    for (s0, s1) in out:
+                        if not all(win['xrange'][0] <= s_[0] < win['xrange'][1] and win['yrange'][0] <= s_[1] < win['yrange'][1] for s_ in (tuple(s0)[:2], tuple(s1)[:2])):
+                            raise Violation(f'measure:{kind}:measure_2site_window', f'pair {(s0, s1)} outside the window {win}')
                 for (s0, s1), val in out.items():
                     s0, s1 = tuple(s0)[:2], tuple(s1)[:2]
                     if s0 == s1:
@@ -330,6 +367,8 @@ def execute_evolve(desc):
     psi, v, labels, nt0 = c11.run_circuit(desc, check=False)
     if np.linalg.norm(v) < 1e-8:
         raise Reject('state_annihilated')
+    if max_bond(psi) > 32:
+        raise Reject('bond_dimension_too_large')
     ref = v
     gates = []
     cond = 1.0
@@ -371,6 +410,6 @@ def execute_evolve(desc):
 
 
 def parts(tier):
-    return [HypPart('measure', draw_measure, execute_measure, {'quick': 480, 'thorough': 8000}),
+    return [HypPart('measure', draw_measure, execute_measure, {'quick': 960, 'thorough': 12000}),
             HypPart('metric', draw_metric, execute_metric, {'quick': 300, 'thorough': 6000}),
             HypPart('evolve', draw_evolve, execute_evolve, {'quick': 120, 'thorough': 3000})]
